@@ -722,7 +722,6 @@ func c13DoubleCloseThenGC(c *vf.Case, ioc *sonic.IO) {
 	runtime.GC()
 }
 
-
 // c13DescriptorZero: a process started with stdin closed hands descriptor number 0 to the first object it creates.
 // The number is as good as any other: Close releases it.
 func c13DescriptorZero(c *vf.Case, ioc *sonic.IO) {
